@@ -1,6 +1,7 @@
 import DtsVerif.Drv.Common
 import DtsVerif.Drv.Sections
 import DtsVerif.Model.Calib
+import DtsVerif.Model.Propagate
 namespace DtsVerif.Drv
 open Lean DtsVerif.Calib DtsVerif.Wls
 
@@ -84,5 +85,99 @@ def opCalib (j : Json) : R Json := do
       ("fitted", Json.arr (res.fitted.map dyJ)), ("fittedVar", Json.arr (res.fittedVar.map dyJ)),
       ("tmpf", Json.arr (tf.map fun row => Json.arr (row.map dyJ))),
       ("tmpb", Json.arr (tb.map fun row => Json.arr (row.map dyJ)))]
+
+end DtsVerif.Drv
+
+namespace DtsVerif.Drv
+open Lean DtsVerif.Calib DtsVerif.Wls
+
+/-- the documented layouts as the model uses them: every index table -/
+def opLayout (j : Json) : R Json := do
+  let de ← getBool (← field j "double")
+  let nt ← getNat (← field j "nt")
+  let n ← getNat (← field j "nx")
+  let nta ← getNat (← field j "nta")
+  let am ← getBool (← field j "alpha_mode")
+  let inp : Input := { doubleEnded := de, x := Array.replicate n 0, nt, ixSec := #[], K := #[], trans := Array.replicate nta 0,
+                       pairs := #[], iF := #[], iB := #[], vF := #[], vB := #[], fixGamma := none, fixDalpha := none,
+                       fixAlpha := if am then some (#[], #[]) else none, c273 := 0, wbits := 64, codeWeightOrder := false }
+  let rng := fun k => List.range k
+  if de then
+    pure <| Json.mkObj [("npar", natJ inp.npar), ("gamma", natJ Input.colGamma),
+      ("df", listJ natJ ((rng nt).map Input.colDf)), ("db", listJ natJ ((rng nt).map inp.colDb)),
+      ("alpha", listJ natJ ((rng n).map inp.colA)),
+      ("ta", listJ (fun t => listJ (fun d => listJ (fun a => natJ (inp.colTaD a d t)) (rng nta)) (rng 2)) (rng nt))]
+  else
+    pure <| Json.mkObj [("npar", natJ inp.npar), ("gamma", natJ Input.colGamma),
+      ("dalpha", if am then Json.null else natJ Input.colDalpha),
+      ("alpha", if am then listJ natJ ((rng n).map inp.colA) else Json.null),
+      ("c", listJ natJ ((rng nt).map inp.colC)),
+      ("ta", listJ (fun t => listJ (fun a => natJ (inp.colTa a t)) (rng nta)) (rng nt))]
+
+/-- temperatures of the model equation at given parameters -/
+def opTemps (j : Json) : R Json := do
+  let inp ← getInput j
+  let p ← getRatArr (← field j "p_val")
+  let tf := (Array.range inp.N).map fun i => (Array.range inp.nt).map fun t => tmpf inp p i t
+  let tb := if inp.doubleEnded then
+      (Array.range inp.N).map fun i => (Array.range inp.nt).map fun t => tmpb inp p i t else #[]
+  pure <| Json.mkObj [("tmpf", Json.arr (tf.map fun row => Json.arr (row.map dyJ))),
+                      ("tmpb", Json.arr (tb.map fun row => Json.arr (row.map dyJ)))]
+
+end DtsVerif.Drv
+
+namespace DtsVerif.Drv
+open Lean DtsVerif.Calib DtsVerif.Wls DtsVerif.Propagate
+
+def cubeJ (c : Array (Array (List Rat))) (k : Nat) : Json :=
+  Json.arr (c.map fun row => Json.arr (row.map fun l => dyJ (l.getD k 0)))
+
+/-- term-by-term variance propagation of the model at given `p_val, p_var, p_cov` -/
+def opPropagate (j : Json) : R Json := do
+  let inp ← getInput j
+  let p ← getRatArr (← field j "p_val")
+  let pv ← getRatArr (← field j "p_var")
+  let C ← getMat (← field j "p_cov")
+  let st ← getMat (← field j "st")
+  let ast ← getMat (← field j "ast")
+  let stv ← getMat (← field j "st_var")
+  let astv ← getMat (← field j "ast_var")
+  let cells := fun (f : Nat → Nat → List Rat) => (Array.range inp.N).map fun i => (Array.range inp.nt).map fun t => f i t
+  let g := p.getD Input.colGamma 0
+  if inp.doubleEnded then
+    let rst ← getMat (← field j "rst")
+    let rast ← getMat (← field j "rast")
+    let rstv ← getMat (← field j "rst_var")
+    let rastv ← getMat (← field j "rast_var")
+    let JF := fun i t => derivsFw (tmpf inp p i t + inp.c273) g (st.at i t) (ast.at i t)
+    let JB := fun i t => derivsBw (tmpb inp p i t + inp.c273) g (rst.at i t) (rast.at i t)
+    let fw := cells fun i t => termsChannel (JF i t) (stv.at i t) (astv.at i t) (covsFwDouble inp pv C i t)
+    let bw := cells fun i t => termsChannel (JB i t) (rstv.at i t) (rastv.at i t) (covsBwDouble inp pv C i t)
+    let w := cells fun i t =>
+      let vf := sumList (termsChannel (JF i t) (stv.at i t) (astv.at i t) (covsFwDouble inp pv C i t))
+      let vb := sumList (termsChannel (JB i t) (rstv.at i t) (rastv.at i t) (covsBwDouble inp pv C i t))
+      let approx := 1 / (1 / vf + 1 / vb)
+      termsW (approx / vf) (approx / vb) (JF i t) (JB i t) (stv.at i t) (astv.at i t) (rstv.at i t) (rastv.at i t)
+        (covsW inp pv C i t)
+    -- tmpw, tmpw_var_approx, tmpw_var_lower as the code forms them
+    let extra := cells fun i t =>
+      let tF := termsChannel (JF i t) (stv.at i t) (astv.at i t) (covsFwDouble inp pv C i t)
+      let tB := termsChannel (JB i t) (rstv.at i t) (rastv.at i t) (covsBwDouble inp pv C i t)
+      let vf := sumList tF
+      let vb := sumList tB
+      let approx := 1 / (1 / vf + 1 / vb)
+      let tw := ((tmpf inp p i t + inp.c273) / vf + (tmpb inp p i t + inp.c273) / vb) * approx - inp.c273
+      let mf := tF.getD 0 0 + tF.getD 1 0
+      let mb := tB.getD 0 0 + tB.getD 1 0
+      [tw, approx, 1 / (1 / mf + 1 / mb)]
+    pure <| Json.mkObj [("fw", Json.arr ((Array.range 12).map (cubeJ fw))), ("bw", Json.arr ((Array.range 12).map (cubeJ bw))),
+                        ("w", Json.arr ((Array.range 22).map (cubeJ w))),
+                        ("tmpw", cubeJ extra 0), ("approx", cubeJ extra 1), ("lower", cubeJ extra 2)]
+  else
+    let JF := fun i t => derivsFw (tmpf inp p i t + inp.c273) g (st.at i t) (ast.at i t)
+    let fw := cells fun i t =>
+      if inp.alphaMode then termsSingleFixAlpha (JF i t) (stv.at i t) (astv.at i t) (covsSingle inp pv C i t)
+      else termsSingle (JF i t) (inp.xAt i) (stv.at i t) (astv.at i t) (covsSingle inp pv C i t)
+    pure <| Json.mkObj [("fw", Json.arr ((Array.range (if inp.alphaMode then 9 else 12)).map (cubeJ fw)))]
 
 end DtsVerif.Drv
